@@ -126,7 +126,12 @@ func (g *gWorld) applyExchange(op *gOp, ent *gEnt, targetOK func(int) bool) stri
 	add, rem := op.Ty, op.Ty2
 	relAdd := relIn(add)
 	addC, remC := compsOf(add), compsOf(rem)
-	ex := generic.NewExchange(g.Wg).Adds(addC...).Removes(remC...)
+	// one long-lived Exchange helper per world, re-configured for every use: Adds and Removes SET
+	// the lists (an empty call clears them)
+	if g.exch == nil {
+		g.exch = generic.NewExchange(g.Wg)
+	}
+	ex := g.exch.Adds(addC...).Removes(remC...)
 	scribbleComps(addC) // the argument slices are the caller's: it may reuse them at once
 	scribbleComps(remC)
 	addIDs, remIDs := g.mapIDs(add), g.mapIDs(rem)
